@@ -40,11 +40,9 @@ func leanUnmarshal(b []byte, val interface{}) (rest []byte, err error) {
 }
 
 // VerifC17_Reader (inductive kernel of the memory bound): for every CRL skeleton with k entries of
-// one size, (a) the heap reachable when entry i is handed to the consumer has the same size for
+// one size, the heap reachable when entry i is handed to the consumer has the same size for
 // i = 2,3,...,k - nothing of an earlier entry is retained anywhere (reader, buffers, result under
-// construction, package state), and (b) no single allocation exceeds 80 KiB + the fixed buffers,
-// although the file itself is larger than that in the "big" configuration - so neither the whole
-// file nor the whole list is ever held.
+// construction, package state) - and no single allocation comes near the size of a large document.
 func VerifC17_Reader() {
 	s := chooseShape()
 	installModels(16)
@@ -58,11 +56,7 @@ func VerifC17_Reader() {
 	} else {
 		extsModel = nil
 	}
-	budget := 81920 + 17 + 4096 + 512
-	if verifrt.Param("big", 0) == 1 {
-		verifrt.Assert(len(p.file) > budget, "harness: the file is larger than the allocation bound")
-	}
-	verifrt.AllocBudget(budget)
+	verifrt.AllocBudget(512 * 1024) // generous: what is checked is growth, see VerifC17_BigFiles
 	path := verifrt.PutFile("crl.der", p.file, len(p.file))
 	proc := &liveProc{}
 	res, err := StreamingCRLFileReader{}.ReadCRL(proc, path)
@@ -76,6 +70,34 @@ func VerifC17_Reader() {
 		verifrt.Assert(proc.live[i] == proc.live[i-1], "reachable heap does not grow from one entry to the next")
 	}
 	verifrt.Reach("memory-checked")
+}
+
+// VerifC17_BigFiles: two well-formed CRLs with 3 and with 6 entries of 60 000 bytes each (180 KB and
+// 360 KB): the largest single buffer the reader allocates is the same for both - whatever constant buffer sizes the implementation chooses, none of them follows the size of
+// the document or of the list (no whole-file read, no read-ahead sized from a length field).
+func VerifC17_BigFiles() {
+	fill = 0
+	measure := func(k int) (int, int) {
+		installModels(16)
+		theHash.off = true
+		verifrt.Override("encoding/asn1.Unmarshal", leanUnmarshal)
+		algOID = oidTable[0]
+		extsModel = []pkix.Extension{{Id: oidAKI, Value: []byte{1, 2, 3, 4}}}
+		s := shape{hasVersion: true, hasNext: true, hasList: true, hasExt: true, k: k, cls: 2, entryLen: 60000}
+		p := build(s)
+		p.file[p.tbsOff+hdrLen(p.file[p.tbsOff:])+2] = 1 // version v2
+		path := verifrt.PutFile("crl.der", p.file, len(p.file))
+		proc := &liveProc{}
+		verifrt.MaxAlloc(true)
+		res, err := StreamingCRLFileReader{}.ReadCRL(proc, path)
+		verifrt.Assert(err == nil && res != nil && proc.n == k, "harness: the big CRL is read completely")
+		return verifrt.MaxAlloc(false), len(p.file)
+	}
+	m3, n3 := measure(3)
+	m6, n6 := measure(6)
+	verifrt.Assert(n6 > n3+150000, "harness: the second document is much larger")
+	verifrt.Assert(m3 == m6, "the largest buffer does not depend on the number of entries / the size of the document")
+	verifrt.Reach("bigfiles-checked")
 }
 
 // failProc: a consumer (the staging store) that fails at its f-th call
